@@ -225,6 +225,19 @@ class Resolver:
                                 cands = [d.value]
                                 if isinstance(d.value, ast.IfExp):
                                     cands = [d.value.body, d.value.orelse]
+                                # dispatch table: TABLE[key] / TABLE.get(key[, default]) with TABLE a dict display
+                                # (inline or a module-level constant) whose values are function names
+                                tbl = None
+                                extra = []
+                                if isinstance(d.value, ast.Subscript):
+                                    tbl = d.value.value
+                                elif isinstance(d.value, ast.Call) and isinstance(d.value.func, ast.Attribute) and d.value.func.attr == "get" and d.value.args:
+                                    tbl = d.value.func.value
+                                    extra = list(d.value.args[1:2])
+                                if isinstance(tbl, ast.Name) and tbl.id in mod.constants:
+                                    tbl = mod.constants[tbl.id]
+                                if isinstance(tbl, ast.Dict):
+                                    cands = [v for v in tbl.values if v is not None] + extra
                                 for c in cands:
                                     if isinstance(c, (ast.Name, ast.Attribute)) and dotted(c):
                                         r2 = prog.resolve_name(mod, dotted(c))
